@@ -55,9 +55,10 @@
 /* VERIF-UNIT
 {
  "name": "new_dir_block_64k",
+ "backend": "kissat",
  "props": ["C10"],
  "level": "U",
- "tier": "quick",
+ "tier": "wip",
  "harness": "h_new_dir_block",
  "enforce": ["ext2fs_new_dir_block"],
  "defines": ["ND_BS=65536"],
@@ -66,7 +67,7 @@
  "unwind_reason": "see new_dir_block_1k",
  "timeout": 300,
  "functions": ["lib/ext2fs/newdir.c:ext2fs_new_dir_block", "lib/ext2fs/csum.c:ext2fs_initialize_dirent_tail", "lib/ext2fs/dir_iterate.c:ext2fs_set_rec_len"],
- "assumes": ["block size 65536 (the largest one, where rec_len == block size needs the special on-disk encoding)", "as new_dir_block_1k"],
+ "assumes": ["block size 65536 (the largest one, where rec_len == block size needs the special on-disk encoding)", "DOES NOT FINISH (> 40 min with minisat and kissat, also without the ghost-index ZERO clause: define ND_NO_ZERO): kept wip for the record", "as new_dir_block_1k"],
  "native": false
 }
 */
@@ -135,8 +136,10 @@ static unsigned nd_post(const unsigned char *b)
 			bad |= V_TAIL;
 		named = named || (k >= BS - 12 && k < BS - 4);
 	}
+#ifndef ND_NO_ZERO
 	if (!named && b[k] != 0)
 		bad |= V_ZERO;
+#endif
 	return bad;
 }
 
